@@ -43,6 +43,7 @@ func init() {
 		Level: "exploration",
 		Rule: "document entry points (chart dir/archive/memory -> CheckDependencies -> ProcessDependencies -> ToRenderValues -> Render -> SortManifests, and lint; chart archive bytes; values file + --set flags; repository index + Get/Merge/search; " +
 			"manifest stream; Secrets/ConfigMaps records + pkg/storage; whole release histories of 1..3 records, each record good / absent / one of 13 unreadable or 10 decodable-but-incomplete classes - so every history in which ALL records are unreadable is included - through Storage.Last/History/Deployed/Get/List and the actions status, get, get values, history, list, rollback, upgrade, uninstall; " +
+			"chart directories containing an entry the walk cannot treat as a regular file (17 kinds: path beyond PATH_MAX, dangling/looping/escaping symlinks, unreadable directory or file, fifo, odd names ...) x 18 .helmignore contents (absent, file rules, directory-only rules, negations, bad patterns) x 7 places, all triples, through IsChartDir/LoadDir/Load/lint/package; " +
 			"provenance file + keyring; plugin.yaml): a valid baseline, every single atomic deviation of the table " +
 			"(per field: null, wrong scalar type, list<->map, empty, missing, duplicate key, null list element, 10^4 characters, nesting 10^3, non-UTF-8, control characters, plus field-specific shapes), " +
 			"truncation of every small document at every byte, and every non-conflicting pair of the tier's pair set (quick: a core of the deviations that survive loading - 92 for the chart; thorough: a larger set - 318 for the chart - and all deviations for the small tables) " +
